@@ -88,6 +88,24 @@ def gen_cases(rng, tier):
                 c["meta"]["poke"] = ["wlen_grid", L]
                 c["meta"]["cfg"] = cfg
                 cases.append(c)
+    # legal but unusual thresholds: exactly zero (of both signs: "never truncate"), the smallest subnormal, huge, infinite, NaN — on
+    # ordinary problems with two to four basis functions; construction, updates and the whole fit return
+    for j in range(16 if tier == "quick" else 160):
+        fam = ["exp2c", "exp3", "cosmix", "gaussc"][j % 4]
+        M = len(FAMILIES[fam][0])
+        c = gen_problem(rng, family=fam, N=M + 4 + j % 5, ctor=["new", "mrhs", "new_parallel", "mrhs_parallel"][j % 4], quant=None,
+                        scalar=("f32" if j % 5 == 4 else "f64"), builder_made=(j % 3 == 0), weights=["none", "pos"][j % 2])
+        e = [0.0, -0.0, 5e-324, 0.0, 1e300, INF, NAN, -0.0][j % 8]
+        if c["scalar"] == "f32" and e == 5e-324:
+            e = 1e-45
+        c["build"] = [o for o in c["build"] if o[0] != "eps"] + [["eps", hx(e, c["scalar"])]]
+        rng.shuffle(c["build"])
+        cfg = {"patience": 20}
+        a = [hx(v, c["scalar"]) for v in distinct_params(rng, c["meta"]["P"], *c["meta"]["range"])]
+        c["ops"] = [["observe"], ["jac"], ["set", a], ["observe"], ["jac"], ["fit", cfg], ["observe"], ["jac"]]
+        c["meta"]["poke"] = ["threshold", repr(e)]
+        c["meta"]["cfg"] = cfg
+        cases.append(c)
     # a fit that is "successful" without the optimizer ever looking at the Jacobian (observations identically zero: ResidualsZero) at
     # parameters whose DERIVATIVES are not finite while the basis functions are (tau^2 underflows): the statistics must still return
     for j in range(12 if tier == "quick" else 120):
